@@ -597,7 +597,10 @@ where
 /// A type used for more advanced ways of allocating a [`Gc`].
 pub struct GcBuilder<'gc, T: ?Sized, M = (), P = UnitPtrMeta> {
     ptr: GcPtr<T>,
-    _marker: PhantomData<(Invariant<'gc>, M, P)>,
+    // A builder is a *writable* slot for a `T`, so it must be invariant in `T` (like `&mut T`): if
+    // it were covariant, a `GcBuilder<Static<&'static X>>` could be shrunk to a
+    // `GcBuilder<Static<&'a X>>`, unwrapped, and used to store a short-lived reference in the arena.
+    _marker: PhantomData<(Invariant<'gc>, M, P, *mut T)>,
 }
 
 impl<'gc, T: ?Sized, M, P> Drop for GcBuilder<'gc, T, M, P> {
